@@ -192,7 +192,7 @@ def pairs(tier):
         out.append(((COMPILE_OPS[a], COMPILE_OPS[b]), 1, True))        # opcode granularity in the tokenizer
     for a, b in itertools.product(MATCH_OPS, MATCH_OPS + COMPILE_OPS[:3] + COMPILE_OPS[6:]):
         out.append(((a, b), 1, False))
-    core = [0, 1, 4, 5]        # bound 2 costs the square of the number of scheduling points: the short compiles only
+    core = [0, 1, 5]        # bound 2 costs the square of the number of scheduling points: the short compiles only
     for a, b in itertools.combinations_with_replacement(core, 2):
         out.append(((COMPILE_OPS[a], COMPILE_OPS[b]), 2, False))
     for a, b, c in itertools.combinations(range(6), 3):
